@@ -1,6 +1,12 @@
 package main
 
-import "slipvc/vc"
+import (
+	"sort"
+
+	"golang.org/x/tools/go/ssa"
+
+	"slipvc/vc"
+)
 
 // properties decided only by the contracts tagged with them
 func init() {
@@ -14,4 +20,38 @@ func runGenericContracts(c *Ctx) {
 	cs := loadContracts(c)
 	opt := vc.Options{Safety: false, InlineDepth: 2, InlineSize: 100}
 	runContracts(c, cs, opt, defaultSolve())
+	if c.Prop == "C17" {
+		sweepLocks(c, cs, opt)
+	}
+}
+
+// sweepLocks: the package-wide contract `every-function <pkg> lock-balance`: a function that takes a sync
+// lock itself has released it again on every normal return path (directly or through a deferred call).
+func sweepLocks(c *Ctx, cs *vc.Contracts, opt vc.Options) {
+	pkgs := map[string]bool{}
+	for _, p := range cs.Sweeps["lock-balance"] {
+		pkgs[p] = true
+	}
+	var names []string
+	for n := range c.P.Funcs {
+		names = append(names, n)
+	}
+	sort.Strings(names)
+	var roots []*ssa.Function
+	for _, n := range names {
+		fn := c.P.Funcs[n]
+		if !pkgs[pkgShort(fn)] || len(fn.Blocks) == 0 || fn.Parent() != nil || !vc.TakesSyncLock(fn) || cs.ByFunc[n] != nil {
+			continue
+		}
+		roots = append(roots, fn)
+	}
+	for _, fn := range roots {
+		n := vc.FuncName(fn)
+		cs.ByFunc[n] = &vc.Contract{Func: n, Loops: map[string][]*vc.Clause{}, Options: map[string]bool{"lock-balance": true}, Props: []string{"C17"}}
+	}
+	o := opt
+	o.Contracts = cs
+	res := c.runUnits(roots, o, defaultSolve(), 16)
+	c.addResults(res)
+	c.Extra["lock_balance_sweep_functions"] = len(roots)
 }
